@@ -4,6 +4,7 @@ import warnings
 import xml.etree.ElementTree as ET
 
 from harness import sessions
+from harness.common import bud
 from harness.sessions import SB
 
 PROP = "C09"
@@ -314,7 +315,7 @@ def run(ctx, out, budget):
                 "{add(keep), add(new), add_all, create_view, to_xmi, to_json, reload, forced duplicate}; ids read from every "
                 "emitted document by independent parsers. Non-trivial = distinct serialisations after starting from a document.")
     rng = ctx.rng(0)
-    n = 150 if budget == "quick" else 12000
+    n = bud(budget, 150, 12000)
     sess = [gen_session(rng, rng.randint(5, 30)) for _ in range(n)]
     ops_list = [s[0] for s in sess]
     impl = sessions.run_impl_sessions(ops_list)
@@ -337,7 +338,7 @@ def run(ctx, out, budget):
         bad = check_ids(ops, io, start, labels, handles)
         if bad:
             out.oracle_failures.append({"scenario": sc, "what": bad})
-    nd = 300 if budget == "quick" else 24000
+    nd = bud(budget, 300, 24000)
     rng2 = ctx.rng(1)
     for k in range(nd):
         doc_history(rng2, out, k)
